@@ -254,6 +254,8 @@ class Repo:
         amb = self.__dict__.get("_ambiguous")
         if amb is None:
             amb = self.__dict__["_ambiguous"] = views.ambiguous_method_names({n: m.tree for n, m in self.modules.items()})
+        views.PACKAGE_TREES.clear()
+        views.PACKAGE_TREES.update({n: m.tree for n, m in self.modules.items()})
         views.UNSTABLE_ATTRS.clear()
         views.UNSTABLE_ATTRS.update(self.__dict__.setdefault("_unstable", views.unstable_attribute_names({n: m.tree for n, m in self.modules.items()})))
         v = Repo.__new__(Repo)
@@ -457,6 +459,9 @@ class Report:
         self.layer_errors: dict[int, str] = {}
         self.n_layers = 0
         self.fatal: Optional[str] = None
+        self.flat_layers: dict[int, int] = {}
+        self.skip_layers: set[int] = set()
+        self.n_layer_calls = 0
 
     def _layer_failed(self, msg: str) -> None:
         self.layer_errors[self.n_layers] = msg
@@ -688,14 +693,23 @@ def layer(rep: Report, f: Callable[[Repo, Report], None], repo: Repo) -> None:
     """Run the rule layer `f` (an earlier `run` of a check file).  An AnalysisError (a rule lost its anchor) or a crash in
     it is recorded against the rules that layer had declared; the layers stacked on it still run, so that the loss can be
     judged rule by rule on the equivalent views of the tree (see run_check)."""
+    entry = rep.n_layers
+    call_no = rep.n_layer_calls
+    rep.n_layer_calls += 1
+    if call_no in rep.skip_layers:
+        # (on an equivalent view) a layer without inner layers whose rules are all satisfied on the tree as it is
+        rep._layer_done()
+        return
     try:
         f(repo, rep)
     except AnalysisError as e:
         rep._layer_failed(str(e))
     except RecursionError:
-        raise
+        rep._layer_failed("internal error in a rule: the analysis recursed too deep (RecursionError)")
     except Exception as e:
         rep._layer_failed("internal error in a rule: %r" % (e,))
+    if rep.n_layers == entry:
+        rep.flat_layers[call_no] = entry  # no layer was run inside this one: call number -> layer index
     rep._layer_done()
 
 
@@ -736,8 +750,15 @@ class _ViewResult:
         return self.counts.get(rid, 0) >= v0.counts.get(rid, 0)
 
 
-def _run_view(prop: str, tier: str, repo: Repo, fn: Callable[[Repo, Report], None], kind: str) -> _ViewResult:
+def _run_view(prop: str, tier: str, repo: Repo, fn: Callable[[Repo, Report], None], kind: str, v0: Optional[_ViewResult] = None) -> _ViewResult:
     rep = Report(prop, tier, repo)
+    if v0 is not None:
+        # on a view only the layers are run again that hold a rule which is not in order on the tree as it is
+        by_layer: dict[int, list[str]] = {}
+        for rid, k in v0.rep.layer_of.items():
+            by_layer.setdefault(k, []).append(rid)
+        rep.skip_layers = {c for c, k in v0.rep.flat_layers.items() if k not in v0.rep.layer_errors and by_layer.get(k)
+                           and all(v0.status.get(r) == "ok" for r in by_layer[k])}
     layer(rep, fn, repo)
     return _ViewResult(kind, rep)
 
@@ -761,7 +782,10 @@ def run_check(prop: str, fn: Callable[[Repo, Report], None], tier: str) -> int:
         results = [v0]
         for kind in views.KINDS:
             try:
-                rv = _run_view(prop, tier, repo.view(kind), fn, kind)
+                rv = _run_view(prop, tier, repo.view(kind), fn, kind, v0)
+                if rv.rep.skip_layers and any("internal error" in m for m in rv.rep.layer_errors.values()):
+                    # a layer crashed that may have relied on something a skipped layer leaves behind: run them all
+                    rv = _run_view(prop, tier, repo.view(kind), fn, kind, None)
             except RecursionError:
                 continue
             if rv.rep.fatal is None:
